@@ -2442,10 +2442,10 @@ CMR_ERROR CMRysumDecomposeEpsilon(CMR* cmr, CMR_CHRMAT* matrix, CMR_CHRMAT* tran
 
   CMR_SEPA* transpose_sepa = NULL;
   CMR_CALL( CMRsepaTranspose(cmr, sepa, &transpose_sepa) );
-  CMR_CALL( CMRdeltasumDecomposeEpsilon(cmr, transpose, matrix, transpose_sepa, pepsilon) );
+  CMR_ERROR error = CMRdeltasumDecomposeEpsilon(cmr, transpose, matrix, transpose_sepa, pepsilon);
   CMR_CALL( CMRsepaFree(cmr, &transpose_sepa) );
 
-  return CMR_OKAY;
+  return error;
 }
 
 CMR_ERROR CMRysumDecomposeFirst(CMR* cmr, CMR_CHRMAT* matrix, CMR_SEPA* sepa, char epsilon, CMR_CHRMAT** pfirst,
